@@ -21,7 +21,7 @@ def run(ctx):
     ctx.cov["rule"] = ("encoder outputs under all options (chains, developer fields, compressed headers), fixtures up to 3300 bytes, and mutations of both; non-trivial = at least "
                        "one definition and one data segment; distinct by bytes")
     ctx.cov["checker_cmd"] = "coq/build.sh Props/C16.vo Run/RunC16.vo; coqc Props/C16.v; coqc cases_C16_*.v (vm_compute: check_case, check_wire)"
-    tr = ctx.prepare(parts=["dump-consts", "crc"])
+    tr = ctx.prepare(parts=["factory", "dump-consts", "crc", "decoder-reset", "convmode"])
     ok, _ = ctx.coq(["Props/C16.vo", "Run/RunC16.vo"])
     if ok:
         ctx.props()
